@@ -24,6 +24,12 @@ def register(K):
         d = st.read("fickle.Opcode._data", r, Val)
         return z3.If(Val.is_N(d), ENCODE(r), Val.y(d))
 
+    DECOMP = z3.Function("DECOMPILES", SeqV, z3.BoolSort())     # interpreting this opcode sequence from a fresh Interpreter does not raise
+
+    @K.spec("DECOMPILES")
+    def decompiles(eng, st, p):
+        return vbool(DECOMP(items_of(eng, st, p)))
+
     @K.spec("INTERP")
     def interp(eng, st, p):
         return V("val", INTERPF(items_of(eng, st, p)))
@@ -65,7 +71,7 @@ def register(K):
         cur = INTERPF(items_of(eng, st, p))
         lst = eng.spec_value("p._opcodes", st, {"p": p})
         private = z3.Not(z3.Select(st.comp("list.nodeowned"), lst.t))
-        return vbool(z3.And(private, z3.Or(Val.is_N(a.t), a.t == cur)))
+        return vbool(z3.And(private, z3.Or(Val.is_N(a.t), z3.And(a.t == cur, DECOMP(items_of(eng, st, p))))))
 
     @K.spec("inv")
     def inv(eng, st, p):
@@ -76,7 +82,7 @@ def register(K):
         of = st.read("fickle.ASTProperties._of", Val.r(pr.t), Val)
         lst = eng.spec_value("p._opcodes", st, {"p": p})
         private = z3.Not(z3.Select(st.comp("list.nodeowned"), lst.t))
-        return vbool(z3.And(private, z3.Or(Val.is_N(a.t), a.t == cur),
+        return vbool(z3.And(private, z3.Or(Val.is_N(a.t), z3.And(a.t == cur, DECOMP(items_of(eng, st, p)))),
                             z3.Or(Val.is_N(pr.t), z3.And(z3.Not(Val.is_N(a.t)), Val.is_R(pr.t), of == a.t))))
 
     @K.spec("list_insert")
@@ -108,7 +114,7 @@ def register(K):
     K.contract("fickle.Pickled.__init__", params=f"{P}, opcodes: iterable", modifies=["self._opcodes", "self._ast", "self._properties"],
                ensures=["self._opcodes == seq_of(opcodes)", "fresh_since_entry(self._opcodes)", "caches_clear(self)", "inv(self)"])
     K.contract("fickle.Pickled.__len__", params=P, returns="int", pure=True, ensures=["result == len(self._opcodes)"])
-    K.contract("fickle.Pickled.__iter__", params=P, returns="iterator[fickle.Opcode]", ensures=["iterates(result, self._opcodes)"])
+    K.contract("fickle.Pickled.__iter__", params=P, returns="iterator[fickle.Opcode]", ensures=["iterates(result, self._opcodes)", "fresh_since_entry(result)"])
     K.contract("fickle.Pickled.__getitem__", params=f"{P}, index: val", returns="val", pure=True,
                raises={"IndexError": "index_out_of_range(index, len(self._opcodes))"}, ensures=["getitem_eq(result, self._opcodes, index)"])
     K.contract("fickle.Pickled.insert", params=f"{P}, index: int, opcode: fickle.Opcode", requires=["inv(self)"], modifies=MUT, allocates=False,
@@ -120,7 +126,7 @@ def register(K):
                raises={"IndexError": "index_out_of_range(index, len(self._opcodes))"},
                ensures=["self._opcodes == list_del(old(self._opcodes), index)", "caches_clear(self)", "inv(self)"])
     K.contract("fickle.Pickled.nb_opcodes", params=P, returns="int", pure=True, ensures=["result == len(self._opcodes)"])
-    K.contract("fickle.Pickled.opcodes", params=P, returns="iterator[fickle.Opcode]", ensures=["iterates(result, self._opcodes)"])
+    K.contract("fickle.Pickled.opcodes", params=P, returns="iterator[fickle.Opcode]", ensures=["iterates(result, self._opcodes)", "fresh_since_entry(result)"])
 
     K.contract("fickle.Opcode.has_data", params="self: fickle.Opcode", returns="bool", pure=True, ensures=["result == (self._data is not None)"])
     K.contract("fickle.Opcode.data", params="self: fickle.Opcode", returns="bytes", pure=True, may_raise=["NotImplementedError", "Exception"],
@@ -146,7 +152,7 @@ def register(K):
         return V("bytes", st.read("bytearray.data", eng.as_ref(b, st)))
 
     # derived views: computed from the opcode list through the caches
-    K.contract("fickle.Pickled.ast", params=P, returns="val", requires=["inv_ast(self)"], modifies=["self._ast", "@list.items:nodeowned", "@ast.lineno",
+    K.contract("fickle.Pickled.ast", params=P, returns="val", requires=["inv_ast(self)"], may_raise_if="self._ast is None", modifies=["self._ast", "@list.items:nodeowned", "@ast.lineno",
                                                                                               "@ast.col_offset", "@iterator.pos"],
                may_raise=ERR, exact_raises=False,
                ensures_raise={"*": ["inv_ast(self)", "self._properties is old(self._properties)", "self._opcodes == old(self._opcodes)"]},
@@ -157,13 +163,13 @@ def register(K):
                modifies=["self.imports", "self.calls", "self.non_setstate_calls", "self.likely_safe_imports"],
                ensures=["fresh_since_entry(self.imports)", "fresh_since_entry(self.calls)", "fresh_since_entry(self.non_setstate_calls)",
                         "fresh_since_entry(self.likely_safe_imports)"])
-    K.contract("fickle.Pickled.properties", params=P, returns="fickle.ASTProperties", requires=["inv(self)"],
+    K.contract("fickle.Pickled.properties", params=P, returns="fickle.ASTProperties", requires=["inv(self)"], may_raise_if="self._ast is None",
                modifies=["self._ast", "self._properties", "@list.items:nodeowned", "@ast.lineno", "@ast.col_offset", "@iterator.pos"],
                may_raise=ERR, exact_raises=False,
                ensures_raise={"*": ["inv(self)", "self._opcodes == old(self._opcodes)"]},
                ensures=["result is self._properties", "self._opcodes == old(self._opcodes)", "inv(self)"])
     for v in ("has_import", "has_call", "has_non_setstate_call"):
-        K.contract(f"fickle.Pickled.{v}", params=P, returns="bool", requires=["inv(self)"],
+        K.contract(f"fickle.Pickled.{v}", params=P, returns="bool", requires=["inv(self)"], may_raise_if="self._ast is None",
                    modifies=["self._ast", "self._properties", "@list.items:nodeowned", "@ast.lineno", "@ast.col_offset", "@iterator.pos"],
                    may_raise=ERR, exact_raises=False, ensures=["self._opcodes == old(self._opcodes)", "inv(self)"],
                    ensures_raise={"*": ["inv(self)", "self._opcodes == old(self._opcodes)"]})
@@ -181,5 +187,6 @@ def register(K):
     # Interpreter.interpret *defines* INTERP: the module it builds is a function of the opcode sequence (determinism / frames: C13)
     if "fickle.Interpreter.interpret" in K.contracts:
         K.contracts["fickle.Interpreter.interpret"].defines.append("result == INTERP(pickled)")
+        K.contracts["fickle.Interpreter.interpret"].defines.append("DECOMPILES(pickled)")
         K.trusted.append(("INTERP", "definition: the module Interpreter.interpret returns is named INTERP(opcode sequence); that it is a function "
                                     "of the opcode sequence alone is what C13's frame/determinism obligations establish"))
